@@ -497,6 +497,26 @@ func main() {
 				atomic.AddInt64(&nt, int64(len(tagsets)))
 			}
 		})
+		// every known OS / architecture token once in each position of the suffix (the exhaustive
+		// sweep above uses a small vocabulary): a token missing from, or mangled in, the library's
+		// own lists would otherwise go unnoticed
+		var toks []string
+		for t := range knownOS {
+			toks = append(toks, t)
+		}
+		for t := range knownArch {
+			toks = append(toks, t)
+		}
+		sort.Strings(toks)
+		for _, tk := range toks {
+			for _, n := range []string{"x_" + tk + ".go", "x_" + tk + "_test.go", "x_linux_" + tk + ".go", "x_" + tk + "_amd64.go", tk + ".go", tk + "_test.go", "x_" + tk + ".s", "x_y_" + tk + ".go"} {
+				for _, t := range []map[string]bool{{tk: true}, {}, {"linux": true, "amd64": true}, {tk: true, "linux": true, "amd64": true}, {"android": true, "arm64": true}} {
+					checkMatch(n, t)
+					nt++
+				}
+			}
+		}
+		r.Set("matchfile_os_and_arch_tokens_swept", len(toks))
 		r.DistinctBulk(nt)
 		r.Set("matchfile_names", len(names))
 		r.Set("matchfile_tagsets", len(tagsets))
